@@ -235,7 +235,17 @@ local function _sandbox_pcall(f, ...)
 end
 
 local function _sandbox_xpcall(f, handler)
-    return _lua_reraise_timeout(xpcall(f, handler))
+    -- The message handler runs at the point of the error.  When that error
+    -- is the timeout raised by the count hook, the handler runs inside the
+    -- hook, where Lua calls no further hooks: a handler that does not return
+    -- could never be stopped.  Do not hand the timeout to module code.
+    local function guarded_handler(e)
+        if _lua_deadline_passed() and _python_top_env() ~= nil then
+            return "Lua timeout error"
+        end
+        return handler(e)
+    end
+    return _lua_reraise_timeout(xpcall(f, guarded_handler))
 end
 
 -- The debug hook is per Lua thread: arm it in coroutines created by modules.
